@@ -88,6 +88,7 @@ func jobsFor(id, tier string) []*Job {
 				bp = append(bp, []int{sh, shards2, 2, 0})
 			}
 		}
+		bp = append(bp, []int{0, 2, 2, 2}, []int{1, 2, 2, 2}) // every indexing built-in (*.at) with two arguments, in every tier
 		bj := wmk("builtin", "zzverifw.H_C01_builtin", bp)
 		if !thorough {
 			bj.TimeoutS = 60
@@ -278,9 +279,14 @@ func jobsFor(id, tier string) []*Job {
 			}
 			for i := 0; i < 2; i++ {
 				for op := 0; op < 5; op++ {
-					ps = append(ps, []int{l, i, op, narrow, 0})
+					if l >= 2 && op >= 3 {
+						// the heaviest shards (a second symbolic start value): split by the iterator of the second operation
+						ps = append(ps, []int{l, i, op, narrow, 0, 0}, []int{l, i, op, narrow, 0, 1})
+					} else {
+						ps = append(ps, []int{l, i, op, narrow, 0, -1})
+					}
 					if narrow == 1 && (op == 1 || op == 2 || thorough) {
-						ps = append(ps, []int{l, i, op, narrow, 1}) // family without declared parameters
+						ps = append(ps, []int{l, i, op, narrow, 1, -1}) // family without declared parameters
 					}
 				}
 			}
@@ -437,7 +443,7 @@ func boundsFor(id, tier string, jobs []*Job) map[string]interface{} {
 		} else {
 			b["arity"] = "0 and 1 argument for every built-in; 2 arguments for a quarter of them (6 of 24 shards)"
 		}
-		b["argument_shapes"] = "symbolic int, symbolic float, nil, bool, strs, arrays, objects, maps, ranges, function, iterator, Either values, error value, prototypes, bear children, symbol, char (solver choice per position)"
+		b["argument_shapes"] = "symbolic int, symbolic float, a range whose three bounds are each nil or any int64 (bare, and wrapped in an array as an index argument), nil, bool, strs, arrays, objects, maps, ranges, function, iterator, Either values, error value, prototypes, bear children, symbol, char (solver choice per position)"
 		b["second_step"] = "for arity 0..1 every non-error result is then printed, compared, unpacked with * and ** into calls and literals, iterated and interpolated (14 consumers)"
 		b["singletons"] = "every name of the constants environment x 15 generic probes (printing, lookup, comparison, bear, which, try)"
 	case "C17":
